@@ -5,13 +5,22 @@ import json
 from harness import core, session, refinterp
 
 
+def _gen(job):
+    import random
+    prof, seed, size = job
+    rng = random.Random(seed)
+    ir = refinterp.gen_program(rng, prof, size)
+    return prof, ir, refinterp.to_source(ir), refinterp.ref_run(ir)
+
+
 def run_profiles(ctx, profiles, n_per_profile, sizes=(4, 8, 14, 22)):
+    import multiprocessing as mp
     rng = ctx.rng
-    progs = []
-    for prof in profiles:
-        for _ in range(n_per_profile):
-            ir = refinterp.gen_program(rng, prof, rng.choice(sizes))
-            progs.append((prof, ir, refinterp.to_source(ir)))
+    jobs = [(prof, rng.getrandbits(48), rng.choice(sizes)) for prof in profiles for _ in range(n_per_profile)]
+    with mp.Pool(16) as pool:
+        gen = pool.map(_gen, jobs, chunksize=8)
+    progs = [(prof, ir, src) for prof, ir, src, _ in gen]
+    refs = [r for _, _, _, r in gen]
     reqs = [session.model_request([src], fuel=60000) for _, _, src in progs] if ctx.build.ok else []
     resp = core.run_driver(reqs) if reqs else []
     impl = session.ImplSession()
@@ -19,7 +28,7 @@ def run_profiles(ctx, profiles, n_per_profile, sizes=(4, 8, 14, 22)):
         for k, (prof, ir, src) in enumerate(progs):
             ctx.seen(src, nontrivial=refinterp.nontrivial(ir, prof))
             ctx.count("programs_" + prof)
-            ref = refinterp.ref_run(ir)
+            ref = refs[k]
             impl.it.environment.map.clear()
             out, printed, _ = impl.run(src)
             rp = {"op": "program", "profile": prof, "src": src, "ir": json.loads(json.dumps(ir))}
